@@ -132,6 +132,22 @@ def sounding_quarters(part):
     return sorted(rows)
 
 
+def has_underfull_measure(part):
+    """a measure in which nothing (not even a rest) reaches the barline, or a voice-less stretch inside it"""
+    import partitura.score as S
+    notes = [n for n in timemaps.objects_of(part, S.GenericNote, exact=False) if n.end is not None]
+    for m in timemaps.objects_of(part, S.Measure):
+        if m.end is None:
+            continue
+        inside = [n for n in notes if m.start.t <= n.start.t < m.end.t]
+        reach = max([n.end.t for n in inside] + [m.start.t])
+        if inside and reach < m.end.t:
+            return True
+        if not inside and m.end.t > m.start.t:
+            return True
+    return False
+
+
 def first_diff(a, b):
     for cat in a:
         if a[cat] != b.get(cat):
@@ -190,7 +206,7 @@ def check_roundtrip(ctx, arg, xml_bytes, label):
                 if got is None or [tuple(x) for x in got] != exp:
                     miss = [x for x in exp if got is None or x not in got][:3]
                     extra = [x for x in (got or []) if x not in exp][:3]
-                    ctx.violation("under-full-measure-shrinks-on-reload" if getattr(ctx, "c03_hostile", None) == "underfull-measure"
+                    ctx.violation("under-full-measure-shrinks-on-reload" if (getattr(ctx, "c03_hostile", None) == "underfull-measure" or has_underfull_measure(p))
                                   else "written-file-denotes-other-sounding-notes", f"part {p.id}: score-only {[(str(a), str(b), c) for a, b, c in miss]}, "
                                   f"file-only {[(str(a), str(b), c) for a, b, c in extra]}", w)
                     break
@@ -208,11 +224,19 @@ def check_roundtrip(ctx, arg, xml_bytes, label):
             ctx.violation("roundtrip-differs:number-of-parts", f"{len(fa)} parts saved, {len(fb)} loaded", w)
             return
         for pa, pb, part in zip(fa, fb, score_arg.parts):
+            nums = [m_[0] for m_ in sorted(pa["measures"], key=lambda m_: m_[2])]
+            if nums != list(range(1, len(nums) + 1)):
+                # MusicXML carries the measure's name; the number is the running index the importer assigns
+                ctx.ambiguous()
+                pa = dict(pa, measures=[(None,) + m_[1:] for m_ in pa["measures"]])
+                pb = dict(pb, measures=[(None,) + m_[1:] for m_ in pb["measures"]])
             d = first_diff(pa, pb)
             if d:
                 cat, only_a, only_b = d
                 key = classify(cat, only_a, only_b, part)
                 hz = getattr(ctx, "c03_hostile", None)
+                if hz is None and cat in ("measures", "notes") and has_underfull_measure(part):
+                    hz = "underfull-measure"
                 if hz == "underfull-measure":
                     key = "under-full-measure-shrinks-on-reload"       # everything after the short measure moves with it
                 elif hz == "intra-voice-overlap" and cat == "notes" and "voice" in key:
@@ -241,8 +265,17 @@ def check_roundtrip(ctx, arg, xml_bytes, label):
                               "the importer adds a page and a system at the start of every part; a score built without them is re-exported with "
                               "an additional <print> element", w)
                 return
+            prints = {'<print new-page="yes" new-system="yes"/>', '<print new-page="yes"/>', '<print new-system="yes"/>'}
+            if any(timemaps.objects_of(p, S.Staff) for p in score_arg.parts) and \
+                    all(("staff-details" in x or "staff-lines" in x or "<staves>" in x or x in ("<attributes>", "</attributes>") or x in prints)
+                        for x in extra_a + extra_b):
+                if any(x in prints for x in extra_b):
+                    ctx.violation("re-export-gains-print-element-for-score-without-page-and-system-objects", "score without page/system objects", w)
+                ctx.violation("staff-details-written-but-not-read-back", "Staff objects are written as <staff-details> but load_musicxml does not "
+                              "read them, so the re-export of the re-loaded score lacks them", w)
+                return
             hz = getattr(ctx, "c03_hostile", None)
-            if hz:
+            if hz or any(has_underfull_measure(p) for p in score_arg.parts):
                 return                   # consequences of the hostile constructions are reported by the comparison above
             ctx.violation("re-export-not-byte-identical", f"line {i}: {la[i].strip() if i < len(la) else '<eof>'!r} vs {lb[i].strip() if i < len(lb) else '<eof>'!r}", w)
     finally:
@@ -290,6 +323,10 @@ def plan(tier, seed):
     items = [["gen", i] for i in range(n)]
     fx = corpora.musicxml_files()
     items += [["fixture", f] for f in fx]
+    other = corpora.kern_files() + corpora.mei_files() + corpora.midi_files()
+    if tier == "quick":
+        other = corpora.kern_files()[:4] + corpora.mei_files()[:3] + corpora.midi_files()[:1]
+    items += [["fixture-other", f] for f in other]
     return items
 
 
@@ -311,14 +348,14 @@ def run_item(ctx, item):
     import partitura
     import partitura.score as S
     from workloads import gen_score
-    if item[0] == "fixture":
+    if item[0] in ("fixture", "fixture-other"):
         ctx.c03_hostile = None
         ctx.c03_label = "fixture:" + item[1].split("/")[-1]
-        sc = ctx.call(partitura.load_musicxml, item[1])
+        sc = ctx.call(partitura.load_score, item[1])
         ok, data = ctx.try_call(partitura.save_musicxml, sc)
         fp = fingerprint(sc)
         n_notes = sum(len(p["notes"]) for p in fp)
-        ctx.case(["fixture", item[1]], n_notes > 10, cls="fixture", sample={"file": item[1].split("/")[-1], "notes": n_notes})
+        ctx.case(["fixture", item[1]], n_notes > 10, cls=item[0], sample={"file": item[1].split("/")[-1], "notes": n_notes})
         return
     rng = ctx.rng("gen", item[1])
     ctx.c03_label = f"generated:{item[1]}"
